@@ -234,8 +234,17 @@ def check_mirror(out, facts, S, D):
             labs = {}
             if rbs:
                 for b in (0, 1):
-                    sel = select_value(v, lambda x, b=b: b if strip(x) == ('byte', rbs[0][1]) else None)
+                    lf = lambda x, b=b: b if strip(x) == ('byte', rbs[0][1]) else None
+                    sel = select_value(v, lf)
                     labs[b] = value_label(sel) if sel is not None else '?'
+                    if labs[b] not in ('true', 'false') and sel is not None:
+                        # a computed value (`byte == 1`, `byte != 0`): evaluate it
+                        try:
+                            r_ = eval_expr(sel, lf)
+                        except ArithPanic:
+                            r_ = None
+                        if isinstance(r_, bool):
+                            labs[b] = 'true' if r_ else 'false'
             if labs.get(0) != 'false' or labs.get(1) != 'true':
                 good, msg = False, 'bool tags decode as %s (0 must be false, 1 true: the encoder writes `self as u8`)' % labs
         # transparent data flow
